@@ -228,16 +228,17 @@ def sumIntReplies : List Resp → Nat → Resp
     | none => .unmodelled "unexpected integer reply"
   | _ :: _, _ => .unmodelled "unexpected reply kind"
 
-/-- `handle_msetnx` -/
-def handleMsetnx (c : Cmd) : Handled :=
+/-- `handle_msetnx`; the regrouped sub-commands inherit the redirection mark of the command
+(`set_redirection_times`, /repo 04a2318) -/
+def handleMsetnx (redirTimes : Option Nat) (c : Cmd) : Handled :=
   if !cfg.activeRedirection && !sameSlot (msetGuardKeys c) then { reply := notSameSlot, dispatched := [] }
   else
     let pm := msetPairs (c.drop 1)
     if pm.2 then { reply := wrongArgs "mset", dispatched := [] }
     else
       let groups := groupBySlot pm.1
-      let ds := runSubs cfg cm (groups.map fun g =>
-        some MSETNX :: g.2.flatMap fun kv => [some kv.1, some kv.2])
+      let ds := (groups.map fun g =>
+        some MSETNX :: g.2.flatMap fun kv => [some kv.1, some kv.2]).map (sendOne cfg cm redirTimes)
       if ds.isEmpty then { reply := wrongArgs "mset", dispatched := [] }
       else
         let rs := ds.map (replyOf backend)
@@ -345,7 +346,7 @@ def handleData (redirTimes : Option Nat) (c : Cmd) : Handled :=
   let h := handlerOf c
   if h.1 == "handle_mget" then handleMget cfg cm backend c
   else if h.1 == "handle_mset" then handleMset cfg cm backend c
-  else if h.1 == "handle_msetnx" then handleMsetnx cfg cm backend c
+  else if h.1 == "handle_msetnx" then handleMsetnx cfg cm backend redirTimes c
   else if h.1 == "handle_multi_int_cmd" then handleMultiInt cfg cm backend h.2 c
   else if h.1 == "handle_blocking_commands" then handleBlocking cfg cm backend (dataCmdTypeOf c) c
   else if h.1 == "handle_eval_cmd" then handleEval cfg cm backend redirTimes c
